@@ -715,6 +715,9 @@ class Flatten(EnvironmentFilter):
                     for target in targets:
                         new[target] = DiscreteReward(new['actions'],list(map(old[target],old['actions'])))
 
+                if 'action' in old and old['action'] in old['actions']:
+                    new['action'] = new['actions'][old['actions'].index(old['action'])]
+
             yield new
 
 class Binary(EnvironmentFilter):
